@@ -145,11 +145,12 @@ def triage(pid, agg, known, classify, replay, log, max_replays_per_key=3):
 
 def report_issues(agg, log):
     for e in agg['errors'][:3]: log('ERROR in instance %s: %s' % (e['instance'], e['error'][-800:]))
-    seen = collections.Counter()
+    seen = collections.Counter(); first = {}
     for i in agg['issues']:
-        seen[(i['status'], i['msg'], tuple(i.get('where') or ())[-2:])] += 1
+        k = (i['status'], i['msg'], tuple(i.get('where') or ())[-2:])
+        seen[k] += 1; first.setdefault(k, i.get('instance'))
     for (st, msg, wh), n in seen.most_common(8):
-        log('INCONCLUSIVE path: %s %s at %s (%d sampled)' % (st, msg, '/'.join(wh), n))
+        log('INCONCLUSIVE path: %s %s at %s (%d sampled; first in instance %s)' % (st, msg, '/'.join(wh), n, first[(st, msg, wh)]))
     for m in agg['mismatches'][:5]:
         log('ENCODING MISMATCH (symbolic vs native): %s' % json.dumps(m, ensure_ascii=False, default=str)[:600])
     if agg['truncated']: log('exploration truncated by the time budget in %d instances' % agg['truncated'])
